@@ -262,7 +262,13 @@ func c15(raw json.RawMessage, resp *drv.Response) error {
 							msg = fmt.Sprint(x)
 						}
 					}()
-					err := hc.Run(&engine.Config{Mode: engine.Native}, row.flat(), func(api frontend.API, iv []frontend.Variable) error {
+					// every second repetition: the same chip has evaluated another row (other selector and wire values) before
+					row0 := randRow(rng, 150, 6)
+					in := row.flat()
+					if rep%2 == 1 {
+						in = append(in, row0.flat()...)
+					}
+					err := hc.Run(&engine.Config{Mode: engine.Native}, in, func(api frontend.API, iv []frontend.Variable) error {
 						var gs []gates.Gate
 						for _, g := range l.Gates {
 							gs = append(gs, gates.GateInstanceFromId(gateID(g, nil)))
@@ -275,6 +281,9 @@ func c15(raw json.RawMessage, resp *drv.Response) error {
 							st, en = append(st, uint64(g[0])), append(en, uint64(g[1]))
 						}
 						chip := gates.NewEvaluateGatesChip(api, gs, uint64(l.NCons), *gates.NewSelectorsInfo(si, st, en))
+						if rep%2 == 1 {
+							chip.EvaluateGateConstraints(*row0.vars(iv[len(row.flat()):]))
+						}
 						for _, c := range chip.EvaluateGateConstraints(*row.vars(iv)) {
 							got = append(got, getE(c))
 						}
